@@ -338,17 +338,57 @@ func (t *termer) load(addr ssa.Value, v ssa.Value, ctx *Ctx) *Term {
 			// the variable is also written field-wise: its value is not that of the whole store
 			return mk("load", "", v, ctx, t.alloc(a, ctx))
 		}
-		if len(stores) == 1 {
+		// a variable captured by closures is also written through their free variables
+		type cstore struct {
+			val ssa.Value
+			ctx *Ctx
+		}
+		var captured []cstore
+		for _, r := range *a.Referrers() {
+			mc, ok := r.(*ssa.MakeClosure)
+			if !ok {
+				continue
+			}
+			fn, _ := mc.Fn.(*ssa.Function)
+			if fn == nil {
+				continue
+			}
+			for i, bnd := range mc.Bindings {
+				if bnd != ssa.Value(a) || i >= len(fn.FreeVars) {
+					continue
+				}
+				fv := fn.FreeVars[i]
+				for _, rr := range *fv.Referrers() {
+					if st, ok := rr.(*ssa.Store); ok && st.Addr == ssa.Value(fv) {
+						d := 0
+						if ctx != nil {
+							d = ctx.Depth + 1
+						}
+						captured = append(captured, cstore{st.Val, &Ctx{Parent: ctx, Fn: fn, Closure: mc, ClosureCtx: ctx, Depth: d}})
+					}
+				}
+			}
+		}
+		if len(stores) == 1 && len(captured) == 0 {
 			return t.term(stores[0].Val, ctx)
 		}
-		if len(stores) > 1 {
-			if t.visiting[v] {
+		if len(stores)+len(captured) > 1 || len(captured) > 0 {
+			if t.visiting[v] || t.visiting[a] {
 				return mk("phi", "↺", v, ctx)
 			}
 			t.visiting[v] = true
+			t.visiting[a] = true
 			defer delete(t.visiting, v)
+			defer delete(t.visiting, a)
 			var args []*Term
 			seen := map[string]bool{}
+			for _, cs := range captured {
+				x := t.term(cs.val, cs.ctx)
+				if !seen[x.String()] {
+					seen[x.String()] = true
+					args = append(args, x)
+				}
+			}
 			for _, s := range stores {
 				x := t.term(s.Val, ctx)
 				if !seen[x.String()] {
